@@ -19,6 +19,8 @@ fn classify(type_name: &'static str) -> &'static str {
         "P"
     } else if type_name.contains("Receiver") {
         "Rx"
+    } else if type_name.contains("DatamodelFactory") {
+        "F"
     } else if type_name.contains("datamodel::Data") {
         "V"
     } else if type_name.contains("dyn ") && type_name.contains("Action") {
